@@ -98,6 +98,7 @@ type Interp struct {
 	altModel  map[string]uint64
 	f2iSrc    map[int]*Term
 	pcSet     map[int]bool
+	fixedLog  []WitnessChoice
 	synHits   int
 	setups    map[string]Value
 	rng        *rand.Rand
@@ -139,6 +140,7 @@ func (in *Interp) resetPath() {
 	in.altModel = nil
 	in.f2iSrc = map[int]*Term{}
 	in.pcSet = map[int]bool{}
+	in.fixedLog = nil
 }
 
 func isRepoPkgPath(p string) bool {
@@ -752,6 +754,7 @@ func (in *Interp) choose(name string, n int) int {
 		return 0
 	}
 	if k, ok := in.cfg.Fix[name]; ok && k < n {
+		in.fixedLog = append(in.fixedLog, WitnessChoice{Name: name, K: k, N: n})
 		return k
 	}
 	return in.branch(n, name, nil)
